@@ -346,13 +346,58 @@ func ordinalName(c *core.Ctx, scope string, v ssa.Value) string {
 }
 
 func isGetResult(v ssa.Value) bool {
-	for i := 0; i < 4; i++ {
+	for i := 0; i < 6; i++ {
 		switch x := v.(type) {
 		case *ssa.TypeAssert:
 			v = x.X
 		case *ssa.Call:
 			cal := x.Call.StaticCallee()
 			return cal != nil && cal.Name() == "Get"
+		case *ssa.UnOp:
+			// a load of a local that holds the Get result: the variable itself (spilled because a deferred closure
+			// captures it), or - inside that closure - the captured variable of the enclosing function
+			if x.Op != token.MUL {
+				return false
+			}
+			var cell *ssa.Alloc
+			switch a := x.X.(type) {
+			case *ssa.Alloc:
+				cell = a
+			case *ssa.FreeVar:
+				fn := a.Parent()
+				if fn == nil || fn.Parent() == nil {
+					return false
+				}
+				idx := -1
+				for k, fv := range fn.FreeVars {
+					if fv == a {
+						idx = k
+					}
+				}
+				// the closure's creation site in the parent: the binding at that index
+				for _, b := range fn.Parent().Blocks {
+					for _, ins := range b.Instrs {
+						if mc, ok := ins.(*ssa.MakeClosure); ok && mc.Fn == ssa.Value(fn) && idx >= 0 && idx < len(mc.Bindings) {
+							cell, _ = mc.Bindings[idx].(*ssa.Alloc)
+						}
+					}
+				}
+			}
+			if cell == nil || cell.Referrers() == nil {
+				return false
+			}
+			var stored ssa.Value
+			n := 0
+			for _, r := range *cell.Referrers() {
+				if st, ok := r.(*ssa.Store); ok && st.Addr == ssa.Value(cell) {
+					stored = st.Val
+					n++
+				}
+			}
+			if n != 1 {
+				return false
+			}
+			v = stored
 		default:
 			return false
 		}
